@@ -5,7 +5,8 @@ usage: c09_impl.py p1 <tmpdir>    < cases {"id", "hex", "frames": [[off, len], .
             -> {"id", "first": R, "second": R}
        where R = {"exc": name, "msg": ...} | {"msgs": [[off, len], ...], "bytes_ok": bool, "p1i": hex|null}
 
-For an `open` case the data file <dir>/log.p1log and (unless null) the index file <dir>/log.p1i are written, then the log is
+For an `open` case the data file <dir>/<name> (name given by the case: *.p1log, *.bin, *.raw, no extension ...) and
+(unless null) the index file <dir>/<stem>.p1i are written, then the log is
 opened with MixedLogReader(path, ignore_index=ignore, return_bytes=True, return_offset=True[, num_threads=threads]) and iterated to
 the end ("first"); then it is opened again with ignore_index=False ("second": the re-open of the history).
 """
@@ -28,20 +29,20 @@ def read_log(path, data, ignore, threads):
                 ok = ok and bytes(b) == data[off:off + len(b)]
         finally:
             reader.input_file.close()
-        return {'msgs': msgs, 'bytes_ok': ok, 'p1i': rd(path[:-6] + '.p1i')}
+        return {'msgs': msgs, 'bytes_ok': ok, 'p1i': rd(os.path.splitext(path)[0] + '.p1i')}
     except BaseException as e:
-        return {'exc': type(e).__name__, 'msg': str(e)[:200], 'tb': traceback.format_exc()[-500:], 'p1i': rd(path[:-6] + '.p1i')}
+        return {'exc': type(e).__name__, 'msg': str(e)[:200], 'tb': traceback.format_exc()[-500:], 'p1i': rd(os.path.splitext(path)[0] + '.p1i')}
 
 
 def open_case(c, tmp):
     d = os.path.join(tmp, 'o' + c['id'])
     os.makedirs(d)
     data = bytes.fromhex(c['data'])
-    path = os.path.join(d, 'log.p1log')
+    path = os.path.join(d, c.get('name', 'log.p1log'))     # the index of <stem><ext> is <stem>.p1i (FileIndex.get_path)
     with open(path, 'wb') as f:
         f.write(data)
     if c['p1i'] is not None:
-        with open(os.path.join(d, 'log.p1i'), 'wb') as f:
+        with open(os.path.splitext(path)[0] + '.p1i', 'wb') as f:
             f.write(bytes.fromhex(c['p1i']))
     res = {'id': c['id']}
     res['first'] = read_log(path, data, c['ignore'], c.get('threads'))
